@@ -394,133 +394,7 @@ func runC01(c *Ctx) {
 		}, 6)
 	})
 
-	c.rule("C01.O1", "dirty-list typestate in handleHeadersMsg: once a validated header has been pushed onto the in-memory header list (which later headers are validated against), every path to a function exit either commits the batch (final WriteHeaders succeeded) or re-seeds the list from the store (ResetHeaderState); edges that are infeasible after a push are pruned with their justification", func() {
-		fn := c.fn(fnHandleHeaders)
-		pushM := c.method("headerlist", "Chain", "PushBack")
-		resetM := c.method("headerlist", "Chain", "ResetHeaderState")
-		hl := c.field("neutrino", "blockManager", "headerList")
-		onList := func(m *types.Func) Sel {
-			return func(in ssa.Instruction) bool {
-				cc := ir.CallOf(in)
-				return cc != nil && callTo(m)(in) && cc.IsInvoke() && loadsField(hl)(cc.Value)
-			}
-		}
-		appends := find(fn, appendsOf(hdrNamed()))
-		// D: the push that goes with the batch append (same branch: dominated by the append's block)
-		var ds []ssa.Instruction
-		for _, p := range find(fn, onList(pushM)) {
-			for _, a := range appends {
-				if a.Block().Dominates(p.Block()) {
-					ds = append(ds, p)
-				}
-			}
-		}
-		construct := c.nm(fn) + " | after headerList.PushBack every exit commits the batch or resets the list"
-		if len(ds) != 1 {
-			c.undecided(construct, c.P.Pos(fn.Pos()), fmt.Sprintf("expected exactly one headerList.PushBack tied to the batch append, found %d", len(ds)))
-			return
-		}
-		// R: a direct reset of the header list, or a call of a blockManager helper that resets it
-		helpers := map[*types.Func]bool{}
-		for _, f := range c.P.Funcs {
-			obj, _ := f.Object().(*types.Func)
-			if obj == nil || f == fn || f.Parent() != nil {
-				continue
-			}
-			if len(find(f, onList(resetM))) > 0 {
-				helpers[obj] = true
-			}
-		}
-		isR := func(in ssa.Instruction) bool {
-			if onList(resetM)(in) {
-				return true
-			}
-			cc := ir.CallOf(in)
-			if cc == nil {
-				return false
-			}
-			cal := ir.Resolve(cc)
-			return cal.Func != nil && helpers[cal.Func]
-		}
-		cut := ir.Cut{}
-		var why []string
-		// C: success edge of the batch write
-		for _, w := range find(fn, callTo(bhsWrite())) {
-			args := argsOf(w)
-			if len(args) == 1 && ir.DerivesFrom(args[0], func(v ssa.Value) bool {
-				in, ok := v.(ssa.Instruction)
-				return ok && appendsOf(hdrNamed())(in)
-			}) {
-				g := errNil("batch WriteHeaders", []ssa.Instruction{w}, 0)
-				for _, s := range g.sites {
-					cut[s.br.Edge()] = true
-				}
-				why = append(why, "commit edge: batch WriteHeaders = nil at "+c.at(w))
-			}
-		}
-		// pruned: len(headerWriteBatch) > 0 is true after an append
-		ir.Instrs(fn, func(in ssa.Instruction) {
-			b, ok := in.(*ssa.BinOp)
-			if !ok {
-				return
-			}
-			if call, ok := b.X.(*ssa.Call); ok && isBuiltin("len")(call) && elemIs(call.Call.Args[0].Type(), hdrNamed()) {
-				if k, isC := ir.ConstInt(b.Y); isC && k == 0 && b.Op == token.GTR {
-					for _, tb := range ir.TrueBranches(b) {
-						cut[tb.Other()] = true
-						why = append(why, "pruned: len(headerWriteBatch) > 0 cannot be false after an append ("+c.at(in)+")")
-					}
-				}
-			}
-		})
-		// pruned: headerList.Back() == nil after a PushBack
-		backM := c.method("headerlist", "Chain", "Back")
-		for _, bk := range find(fn, onList(backM)) {
-			for _, nb := range ir.NilBranches(bk.(ssa.Value)) {
-				cut[nb.Edge()] = true
-				why = append(why, "pruned: headerList.Back() == nil cannot hold after a PushBack ("+c.at(bk)+")")
-			}
-		}
-		// pruned: the non-connecting branch (C01.G3: headers of one message connect to each other)
-		isEqual := c.method(pChainhash, "Hash", "IsEqual")
-		prevBlock := c.field(pWire, "BlockHeader", "PrevBlock")
-		gc := boolIs("connects", find(fn, anyArg(callTo(isEqual), fieldAddrOf(prevBlock))), 0, true)
-		for _, s := range gc.sites {
-			cut[s.br.Other()] = true
-			why = append(why, "pruned: after one header of the message connected the next one connects too (areHeadersConnected, C01.G3) ("+c.at(s.site)+")")
-		}
-		var bad []string
-		ir.WalkAfter(ds[0], cut, func(in ssa.Instruction) bool {
-			if isR(in) {
-				return false
-			}
-			if isExit(in) {
-				bad = append(bad, c.at(in))
-				return false
-			}
-			if _, isPanic := in.(*ssa.Panic); isPanic {
-				return false
-			}
-			return true
-		})
-		sort.Strings(bad)
-		sort.Strings(why)
-		c.verdict(len(bad) == 0, construct, c.at(ds[0]), "no exit reachable with the list ahead of the store", "exit(s) at "+join(bad)+" reachable after the push without committing the batch or resetting the header list: the list (validation baseline) stays ahead of the store", why...)
-		// the helper really re-seeds from the store tip
-		for h := range helpers {
-			hf := c.P.Prog.FuncValue(h)
-			if hf == nil {
-				continue
-			}
-			okArg := true
-			for _, r := range find(hf, onList(resetM)) {
-				if !ir.DerivesFrom(argsOf(r)[0], valIsCallTo(c.method("headerfs", "BlockHeaderStore", "ChainTip"))) {
-					okArg = false
-				}
-			}
-			c.verdict(okArg, c.P.Name(hf)+" | header list re-seeded from BlockHeaders.ChainTip()", c.P.Pos(hf.Pos()), "reset node built from the store's tip", "a header-list reset helper does not re-seed from the store's chain tip")
-		}
-	})
+	c.rule("C01.O1", dirtyListTypestateDoc, func() { c.dirtyListTypestate() })
 
 	c.rule("C01.V5", "a fork cannot displace a checkpointed header: the fork height is measured against the last checkpoint the accepted chain has passed: "+checkpointFloorDoc, func() { c.checkpointFloor() })
 
@@ -634,6 +508,23 @@ func runC01(c *Ctx) {
 	})
 
 	c.rule("C01.P1", "lookups by hash, by height and of the tip agree at every instant: "+readsOneSectionDoc, func() { c.readsOneSection() })
+	c.rule("C01.V9", "a whole headers message fits on the in-memory list: headers are validated one by one against the list and written only once the whole batch has passed, so until then the list is the only place the earlier headers of the batch can be found (the ancestor walk of the validation context falls back to the store, which does not have them yet, and then reports that there is no such ancestor - on networks with the minimum-difficulty exception that answer makes a header with minimum-difficulty bits pass where the real difficulty is required); both bounded lists of the block manager are made with a constant capacity above wire.MaxBlockHeadersPerMsg", func() {
+		nb := c.fn("neutrino.newBlockManager")
+		mk := c.funcObj("headerlist", "NewBoundedMemoryChain")
+		maxMsg := c.importConstIn(pWire, "MaxBlockHeadersPerMsg")
+		calls := find(nb, callTo(mk))
+		var bad []string
+		for _, in := range calls {
+			k, isC := ir.ConstInt(ir.CallOf(in).Args[0])
+			if !isC {
+				bad = append(bad, "capacity at "+c.at(in)+" is not a constant")
+			} else if k <= maxMsg {
+				bad = append(bad, fmt.Sprintf("capacity %d at %s does not hold a headers message of %d on top of the stored tip", k, c.at(in), maxMsg))
+			}
+		}
+		sort.Strings(bad)
+		c.verdict(len(bad) == 0 && len(calls) >= 2, c.nm(nb)+" | list capacity > MaxBlockHeadersPerMsg", c.P.Pos(nb.Pos()), fmt.Sprintf("%d bounded lists, each above %d", len(calls), maxMsg), join(bad)+fmt.Sprintf(" (%d NewBoundedMemoryChain calls, 2 tabled)", len(calls)), c.ats(calls)...)
+	})
 	c.rule("C01.W2", lightCtxNodeDoc, func() { c.lightCtxNode() })
 
 	c.rule("C01.V7", "the header list answers an ancestor query only with the node of exactly that height: Node.Ancestor returns a node only on the edge where its Height equals the requested height (nil otherwise), so a validation context is never built from a nearby header", func() {
@@ -984,4 +875,143 @@ func (c *Ctx) lightCtxNode() {
 		}
 	}
 	c.verdict(okv && len(sts) >= 1, c.nm(fn)+" | the carried node is the one Ancestor returned", c.P.Pos(fn.Pos()), "ancestorCtx.node = ancestorNode", "the node carried into the ancestor's context is not the result of the Ancestor lookup", c.ats(sts)...)
+}
+
+const dirtyListTypestateDoc = "dirty-list typestate in handleHeadersMsg: once a validated header has been pushed onto the in-memory header list (which later headers are validated against), every path to a function exit either commits the batch (final WriteHeaders succeeded) or re-seeds the list from the store (ResetHeaderState); edges that are infeasible after a push are pruned with their justification"
+
+// dirtyListTypestate: see dirtyListTypestateDoc.
+func (c *Ctx) dirtyListTypestate() {
+	hdrNamed := func() *types.Named {
+		n := c.P.Named("headerfs", "BlockHeader")
+		if n == nil {
+			panic(anchorErr{"type headerfs.BlockHeader"})
+		}
+		return n
+	}
+	bhsWrite := func() *types.Func { return c.method("headerfs", "BlockHeaderStore", "WriteHeaders") }
+	fn := c.fn(fnHandleHeaders)
+	pushM := c.method("headerlist", "Chain", "PushBack")
+	resetM := c.method("headerlist", "Chain", "ResetHeaderState")
+	hl := c.field("neutrino", "blockManager", "headerList")
+	onList := func(m *types.Func) Sel {
+		return func(in ssa.Instruction) bool {
+			cc := ir.CallOf(in)
+			return cc != nil && callTo(m)(in) && cc.IsInvoke() && loadsField(hl)(cc.Value)
+		}
+	}
+	appends := find(fn, appendsOf(hdrNamed()))
+	// D: the push that goes with the batch append (same branch: dominated by the append's block)
+	var ds []ssa.Instruction
+	for _, p := range find(fn, onList(pushM)) {
+		for _, a := range appends {
+			if a.Block().Dominates(p.Block()) {
+				ds = append(ds, p)
+			}
+		}
+	}
+	construct := c.nm(fn) + " | after headerList.PushBack every exit commits the batch or resets the list"
+	if len(ds) != 1 {
+		c.undecided(construct, c.P.Pos(fn.Pos()), fmt.Sprintf("expected exactly one headerList.PushBack tied to the batch append, found %d", len(ds)))
+		return
+	}
+	// R: a direct reset of the header list, or a call of a blockManager helper that resets it
+	helpers := map[*types.Func]bool{}
+	for _, f := range c.P.Funcs {
+		obj, _ := f.Object().(*types.Func)
+		if obj == nil || f == fn || f.Parent() != nil {
+			continue
+		}
+		if len(find(f, onList(resetM))) > 0 {
+			helpers[obj] = true
+		}
+	}
+	isR := func(in ssa.Instruction) bool {
+		if onList(resetM)(in) {
+			return true
+		}
+		cc := ir.CallOf(in)
+		if cc == nil {
+			return false
+		}
+		cal := ir.Resolve(cc)
+		return cal.Func != nil && helpers[cal.Func]
+	}
+	cut := ir.Cut{}
+	var why []string
+	// C: success edge of the batch write
+	for _, w := range find(fn, callTo(bhsWrite())) {
+		args := argsOf(w)
+		if len(args) == 1 && ir.DerivesFrom(args[0], func(v ssa.Value) bool {
+			in, ok := v.(ssa.Instruction)
+			return ok && appendsOf(hdrNamed())(in)
+		}) {
+			g := errNil("batch WriteHeaders", []ssa.Instruction{w}, 0)
+			for _, s := range g.sites {
+				cut[s.br.Edge()] = true
+			}
+			why = append(why, "commit edge: batch WriteHeaders = nil at "+c.at(w))
+		}
+	}
+	// pruned: len(headerWriteBatch) > 0 is true after an append
+	ir.Instrs(fn, func(in ssa.Instruction) {
+		b, ok := in.(*ssa.BinOp)
+		if !ok {
+			return
+		}
+		if call, ok := b.X.(*ssa.Call); ok && isBuiltin("len")(call) && elemIs(call.Call.Args[0].Type(), hdrNamed()) {
+			if k, isC := ir.ConstInt(b.Y); isC && k == 0 && b.Op == token.GTR {
+				for _, tb := range ir.TrueBranches(b) {
+					cut[tb.Other()] = true
+					why = append(why, "pruned: len(headerWriteBatch) > 0 cannot be false after an append ("+c.at(in)+")")
+				}
+			}
+		}
+	})
+	// pruned: headerList.Back() == nil after a PushBack
+	backM := c.method("headerlist", "Chain", "Back")
+	for _, bk := range find(fn, onList(backM)) {
+		for _, nb := range ir.NilBranches(bk.(ssa.Value)) {
+			cut[nb.Edge()] = true
+			why = append(why, "pruned: headerList.Back() == nil cannot hold after a PushBack ("+c.at(bk)+")")
+		}
+	}
+	// pruned: the non-connecting branch (C01.G3: headers of one message connect to each other)
+	isEqual := c.method(pChainhash, "Hash", "IsEqual")
+	prevBlock := c.field(pWire, "BlockHeader", "PrevBlock")
+	gc := boolIs("connects", find(fn, anyArg(callTo(isEqual), fieldAddrOf(prevBlock))), 0, true)
+	for _, s := range gc.sites {
+		cut[s.br.Other()] = true
+		why = append(why, "pruned: after one header of the message connected the next one connects too (areHeadersConnected, C01.G3) ("+c.at(s.site)+")")
+	}
+	var bad []string
+	ir.WalkAfter(ds[0], cut, func(in ssa.Instruction) bool {
+		if isR(in) {
+			return false
+		}
+		if isExit(in) {
+			bad = append(bad, c.at(in))
+			return false
+		}
+		if _, isPanic := in.(*ssa.Panic); isPanic {
+			return false
+		}
+		return true
+	})
+	sort.Strings(bad)
+	sort.Strings(why)
+	c.verdict(len(bad) == 0, construct, c.at(ds[0]), "no exit reachable with the list ahead of the store", "exit(s) at "+join(bad)+" reachable after the push without committing the batch or resetting the header list: the list (validation baseline) stays ahead of the store", why...)
+	// the helper really re-seeds from the store tip
+	for h := range helpers {
+		hf := c.P.Prog.FuncValue(h)
+		if hf == nil {
+			continue
+		}
+		okArg := true
+		for _, r := range find(hf, onList(resetM)) {
+			if !ir.DerivesFrom(argsOf(r)[0], valIsCallTo(c.method("headerfs", "BlockHeaderStore", "ChainTip"))) {
+				okArg = false
+			}
+		}
+		c.verdict(okArg, c.P.Name(hf)+" | header list re-seeded from BlockHeaders.ChainTip()", c.P.Pos(hf.Pos()), "reset node built from the store's tip", "a header-list reset helper does not re-seed from the store's chain tip")
+	}
 }
